@@ -493,7 +493,10 @@ def evidence(facts, results):
                          "dict lookup with frozen-dataclass keys = structural equality (dataclass eq/hash generated)"],
         "assumptions": [
             "alias table R: keys are identifiers/paths (hashable), targets are parser-produced expression trees "
-            "(representation invariant of AliasRewriter.replacements, established by __init__ via the parser)",
+            "(representation invariant of AliasRewriter.replacements; that __init__ builds exactly {parse(k): parse(v)} is the "
+            "obligation init.table, what the parser returns for a key is C05/C06/C10's subject)",
+            "a handler reading a constructor-set field outside the object model {replacements, field_aliases} is undecided; only the "
+            "bounded pipeline family (real constructor) speaks about such fields",
             "induction principle over strict sub-terms (decreases clause checked syntactically)",
             "known-finding regions are excluded per obligation (witness predicates in contracts/C14.py:known_regions)",
             "the inverse-bijection corollary of the statement is not mechanised (follows from substitution "
